@@ -865,6 +865,41 @@ Proof.
   rewrite Hr. apply Forall2_map_r. intro e. apply make_row_reflects.
 Qed.
 
+(* interrupted and resumed experiments: rows of all phases, in order *)
+Lemma cb_phases_spec phases : forall s, disk_ok s ->
+  exists s', cb_phases s phases = Some s' /\
+             cb_results s' = cb_results s ++ map (make_row (cb_wallclock s)) (concat phases) /\
+             cb_wallclock s' = cb_wallclock s /\
+             (phases <> [] -> cb_disk s' = Some (cb_results s')) /\ disk_ok s'.
+Proof.
+  induction phases as [|evs rest IH]; intros s Hd.
+  - exists s. cbn. rewrite app_nil_r. repeat split; [congruence | exact Hd].
+  - cbn [cb_phases concat].
+    destruct (cb_feed_spec evs (cb_on_tuning_start s) eq_refl Hd) as (s1 & Hf & Hr & _ & Hw & _).
+    rewrite Hf. cbn [cb_on_tuning_start cb_results cb_wallclock] in Hr, Hw.
+    assert (Hd2 : disk_ok (cb_on_tuning_end s1)).
+    { unfold disk_ok. cbn. exists []. rewrite app_nil_r. reflexivity. }
+    destruct (IH (cb_on_tuning_end s1) Hd2) as (s2 & Hp & Hr2 & Hw2 & Hdisk & Hd3).
+    cbn [cb_on_tuning_end cb_store cb_results cb_wallclock] in Hr2, Hw2.
+    exists s2. split; [exact Hp|]. split.
+    + rewrite Hr2, Hr, Hw, map_app, app_assoc. reflexivity.
+    + split; [rewrite Hw2; exact Hw|]. split; [|exact Hd3].
+      intros _. destruct rest as [|e2 rest2]; [|apply Hdisk; discriminate].
+      cbn in Hp. injection Hp as <-. reflexivity.
+Qed.
+
+Lemma cb_run_phases_spec w phases : phases <> [] ->
+  exists s, cb_run_phases w phases = Some s /\
+            cb_results s = map (make_row w) (concat phases) /\
+            Forall2 (row_reflects w) (concat phases) (cb_results s) /\
+            cb_disk s = Some (cb_results s).
+Proof.
+  intro Hne. unfold cb_run_phases.
+  destruct (cb_phases_spec phases (cb_init w) I) as (s & Hp & Hr & _ & Hdisk & _).
+  exists s. cbn in Hr. repeat split; [exact Hp | exact Hr | | apply Hdisk; exact Hne].
+  rewrite Hr. apply Forall2_map_r. intro e. apply make_row_reflects.
+Qed.
+
 (* whatever the store frequency, the file always holds a prefix of the rows *)
 Lemma cb_disk_prefix w evs s :
   cb_feed (cb_on_tuning_start (cb_init w)) evs = Some s -> disk_ok s.
